@@ -54,6 +54,8 @@ pub struct SendableRecordBatchStream {
     pub items: [RecordBatch; 3],
     pub n: usize,
     pub pos: usize,
+    /// how many more times poll_model() may answer Pending
+    pub pendings_left: u8,
 }
 impl SendableRecordBatchStream {
     /// Model-only: n <= 3 batches of arbitrary lengths (< 2^16) that tile rows 0..total
@@ -71,7 +73,7 @@ impl SendableRecordBatchStream {
             }
             i += 1;
         }
-        (Self { items, n, pos: 0 }, off)
+        (Self { items, n, pos: 0, pendings_left: 0 }, off)
     }
 }
 /// what `self.inner.next()` resolves to, for both error types the chunker uses
@@ -79,6 +81,14 @@ pub trait NextBatch<E> {
     fn next(&mut self) -> Option<std::result::Result<RecordBatch, E>>;
 }
 impl SendableRecordBatchStream {
+    /// `Stream::poll_next`: Ready(next item) or, a bounded number of times, Pending (nondeterministic)
+    pub fn poll_model<E>(&mut self) -> std::task::Poll<Option<std::result::Result<RecordBatch, E>>> {
+        if self.pendings_left > 0 && vnd::any::<bool>() {
+            self.pendings_left -= 1;
+            return std::task::Poll::Pending;
+        }
+        std::task::Poll::Ready(self.next())
+    }
     pub fn next<E>(&mut self) -> Option<std::result::Result<RecordBatch, E>> {
         if self.pos < self.n {
             let b = self.items[self.pos];
